@@ -354,7 +354,8 @@ class CheckContext:
         if self.checker_errors and exit_code == 0:
             exit_code = 3
         for e_ in self.checker_errors[:6]:
-            last = [l_ for l_ in str(e_).strip().splitlines() if l_.strip()][-1][:300]
+            last = " ".join(str(e_).split())
+            last = last if len(last) <= 700 else last[:400] + " ... " + last[-280:]
             lines.append(f"CHECKER-ERROR property={self.prop} {last}")
             self.notes.append("checker error: " + last)
         counted = [r for r in self.records if r.tag in ("P", "G", "F", "L")]
